@@ -127,12 +127,16 @@ type forkSpec struct {
 	fv           lib.ValSet
 	signers      []int
 	coal         string // coalition class (label)
-	timeMode     string // genuine | equal | before | future
-	ref          int64  // height whose time the "equal"/"before" modes refer to
-	now          time.Time
-	drift        time.Duration
-	round        int32
-	salt         string
+	timeMode     string // genuine | equal | before | future | rel
+	// rel: the first forged block's time is the time of GENUINE block relH (a block honest witnesses hold, possibly as
+	// their head) plus relD (0, +-1 ns, +-1 s): forged times are aimed at what the witnesses can compare them with
+	relH  int64
+	relD  time.Duration
+	ref   int64 // height whose time the "equal"/"before" modes refer to
+	now   time.Time
+	drift time.Duration
+	round int32
+	salt  string
 	// nilRest: every member of a forged block's validator set that is not a signer contributes a GENUINE precommit
 	// for nil (same height and round, correct sign bytes, nil flag, right address and index) instead of being absent -
 	// what a forger can harvest from a round of that height that did not decide. Such slots must never count.
@@ -245,7 +249,25 @@ func (w *world) genFork(t *rapid.T, label string, j, m int64, refVals *types.Val
 	default:
 		fs.nilRest = rapid.IntRange(0, 3).Draw(t, label+".nilRest") == 0
 	}
-	fs.timeMode = rapid.SampledFrom([]string{"genuine", "genuine", "genuine", "genuine", "genuine", "equal", "before", "future"}).Draw(t, label+".time")
+	fs.timeMode = rapid.SampledFrom([]string{"genuine", "genuine", "genuine", "genuine", "genuine", "equal", "before", "future", "rel", "rel", "rel"}).Draw(t, label+".time")
+	if fs.timeMode == "rel" {
+		lo, hi := ref, j-1
+		if hi > w.L {
+			hi = w.L
+		}
+		if lo < 1 {
+			lo = 1
+		}
+		if lo > hi {
+			lo = hi
+		}
+		if hi < 1 {
+			fs.timeMode = "genuine"
+		} else {
+			fs.relH = rapid.Int64Range(lo, hi).Draw(t, label+".relH")
+			fs.relD = rapid.SampledFrom([]time.Duration{0, 0, 0, 0, -1, 1, -time.Second, time.Second}).Draw(t, label+".relD")
+		}
+	}
 	fs.round = int32(rapid.SampledFrom([]int{0, 0, 1}).Draw(t, label+".round"))
 	if len(coal) > 0 {
 		fs.layout = rapid.SampledFrom([]string{"", "", "", "", "", "replicate", "replicate", "replicate", "scatter"}).Draw(t, label+".layout")
@@ -395,6 +417,8 @@ func (w *world) build(fs forkSpec, base func(int64) *types.LightBlock) map[int64
 				h.Time = w.T(fs.ref).Add(-time.Nanosecond)
 			case "future":
 				h.Time = fs.now.Add(fs.drift)
+			case "rel":
+				h.Time = w.T(fs.relH).Add(fs.relD)
 			}
 		} else if prev != nil && !h.Time.After(prev.Time) {
 			h.Time = prev.Time.Add(time.Second)
@@ -472,15 +496,22 @@ func overlay(base map[int64]*types.LightBlock, over map[int64]*types.LightBlock)
 	return out, latest
 }
 
-// malform returns a copy of b that violates the provider contract in a drawn way.
-func malform(t *rapid.T, b *types.LightBlock, other *types.LightBlock, label string) *types.LightBlock {
-	switch rapid.SampledFrom([]string{"valset", "nocommit", "commit-other", "chain"}).Draw(t, label) {
+// malform returns a copy of b that is internally inconsistent in a drawn way. A contract-keeping provider double turns
+// it into ErrBadLightBlock; a RAW provider double hands it to the client as it is.
+func (w *world) malform(t *rapid.T, b *types.LightBlock, other *types.LightBlock, label string) *types.LightBlock {
+	switch rapid.SampledFrom([]string{"valset", "nocommit", "commit-other", "chain", "foreign-valset-selfsigned", "foreign-valset-selfsigned"}).Draw(t, label) {
 	case "valset":
 		return &types.LightBlock{SignedHeader: b.SignedHeader, ValidatorSet: other.ValidatorSet}
 	case "nocommit":
 		return &types.LightBlock{SignedHeader: &types.SignedHeader{Header: b.Header}, ValidatorSet: b.ValidatorSet}
 	case "commit-other":
 		return &types.LightBlock{SignedHeader: &types.SignedHeader{Header: b.Header, Commit: other.Commit}, ValidatorSet: b.ValidatorSet}
+	case "foreign-valset-selfsigned":
+		// the genuine header (same hash) with a validator set of the forger's keys and a commit FOR THAT HEADER signed by
+		// them: header and commit are fine on their own, only the validator set is not the one the header names
+		fv := lib.NewValSet([]int{attackerKey, attackerKey + 1}, []int64{5, 5})
+		lb := lib.ForgeLightBlock(w.chainID, *b.Header, fv.Set, false, b.Commit.Round, fv.Keys, nil)
+		return lb
 	default:
 		h := *b.Header
 		h.ChainID = "other-chain"
